@@ -297,19 +297,20 @@ pub fn run_session(s: &Session, ctx: &mut Ctx) -> Result<Transcript, Violation> 
                     Cmd::WaitParsed => {
                         // until the final FileInfo (sent twice with the same count once parsing finished) or budget
                         let mut rounds = 0;
-                        while !(last_fileinfo >= total && fileinfo_repeats >= 1) && rounds < 400 {
+                        // (budgets grow with the length of the log: long logs arrive in many partial frames)
+                        while !(last_fileinfo >= total && fileinfo_repeats >= 1) && rounds < 400 + total as usize / 10 {
                             let _ = pump(&mut ws, &mut ev, 50, false, &mut last_fileinfo, &mut fileinfo_repeats);
                             rounds += 1;
                         }
                         // and some more loops so that streams can deliver
-                        let _ = pump(&mut ws, &mut ev, 300, false, &mut last_fileinfo, &mut fileinfo_repeats);
+                        let _ = pump(&mut ws, &mut ev, 300 + if total > 1000 { total as usize * 4 } else { 0 }, false, &mut last_fileinfo, &mut fileinfo_repeats);
                     }
                     Cmd::SearchPaged { r, filters, start_idx, max_results } => {
                         let mut next = Some(*start_idx);
                         let mut pages = 0;
                         while let Some(st) = next {
                             pages += 1;
-                            if pages > 2000 {
+                            if pages > 2000 + total as usize {
                                 break;
                             }
                             let text = cmd_text(&Cmd::SearchPaged { r: r.clone(), filters: filters.clone(), start_idx: st, max_results: *max_results }, &file_s, &known).unwrap();
